@@ -208,6 +208,43 @@ def r9(p, rep):
     rep.ok("C08.R9", "sweep", "einx/", f"{n} numbering sites inspected", nontrivial=False)
 
 
+def r10(p, rep):
+    rep.rule("C08.R10", "a transposition is skipped only when the permutation is the identity - not when the permuted shape happens to equal the shape", "lint (`[A[i] for i in P] == A` as an identity test, also through one-expression helpers) with a positive self-check", floor=1)
+    import os
+
+    mods = [m for m in p.modules.values() if not any(m.name == o for o in common.OFF_PATH_MODULES)]
+    n, hits = common.selection_identity_tests(p, mods)
+    for node, m, whole, perm in hits:
+        f = p.func_containing(node)
+        rep.violation("C08.R10", f"{f.qualname if f else m.name}:{whole}[{perm}]", f"{m.rel}:{node.lineno}", f"`{norm(node)[:80]}` asks whether `{whole}` permuted by `{perm}` equals `{whole}`: true for every permutation that only exchanges axes of equal length (square matrices, h == w), so a real transposition is skipped and the data keeps its old axis order - transposition / output-permutation relations fail with the right shape and wrong values")
+    rep.ok("C08.R10", "sweep", "einx/", f"{n} equality tests inspected (directly and through one-expression helpers)", nontrivial=False)
+    pos = os.path.join(os.path.dirname(os.path.dirname(os.path.abspath(__file__))), "selftest", "positive", "selection_identity.py")
+    tree = ast.parse(open(pos).read())
+    from sa.canon import _Subst, _copy
+    from sa.core import set_parents
+
+    set_parents(tree)
+    defs = {x.name: x for x in tree.body if isinstance(x, ast.FunctionDef)}
+
+    class _M:  # the example file as a one-module "project": calls resolve to its own top-level functions
+        pass
+
+    mod = _M()
+    mod.tree = tree
+
+    def expand(m, call):
+        h = defs.get(call.func.id) if isinstance(call.func, ast.Name) else None
+        if h is None or len(h.body) != 1 or not isinstance(h.body[0], ast.Return) or len(call.args) != len(h.args.args):
+            return None
+        return _Subst(dict(zip([a.arg for a in h.args.args], call.args))).visit(_copy(h.body[0].value))
+
+    k, h = common.selection_identity_tests(None, [mod], expand=expand)
+    names = sorted({enclosing(x[0], ast.FunctionDef).name for x in h})
+    if names != ["bad", "bad_helper"]:
+        raise AnalysisError(f"self-check of the selection-identity lint failed on selftest/positive/selection_identity.py (reported: {names})")
+    rep.ok("C08.R10", "self-check:positive-example", "selftest/positive/selection_identity.py", "the lint reports both seeded positive examples (direct and through a helper) and is silent on the corrected twin")
+
+
 def run(p, rep, tier):
     r1(p, rep)
     r2(p, rep)
@@ -220,5 +257,6 @@ def run(p, rep, tier):
     c01.r10(p, rep)  # a skipped window check changes which positions are transposed
     c01.r9(p, rep)  # composition / inversion relations break when split and re-assembly disagree on the nesting order
     r9(p, rep)
+    r10(p, rep)
     c01.r12(p, rep)  # operands that list their batch axes in different orders are paired wrongly when the groups are not shared
     rep.info["undecided"] = "transposition, output permutation, regrouping, inversion and composition relations (value-level); e.g. the non-adjacent diagonal defect of classical_from_numpy.diagonal is not found"
